@@ -83,7 +83,7 @@ static bool wdead[MAXW];
 static int  dlog[4 * MAXW], ndlog;
 static TickitTerm *wterm;
 
-struct hdata { int kind; unsigned mask; int ret; char *actions; int depth; };
+struct hdata { int kind; unsigned mask; int ret; char *actions; int depth; int cid; };
 static struct hdata *HD[256];
 static int nHD;
 
@@ -212,10 +212,18 @@ static void w_op(const char *op, int depth)
       h->mask = (unsigned)strtoul(s, (char **)&s, 16); if(*s == '.') s++;
       h->ret = p_int(&s);
       h->actions = strdup(s); h->depth = 0;
-      if(nHD < 256) HD[nHD++] = h;
-      if(h->kind == 'k') tickit_window_bind_event(W[i], TICKIT_WINDOW_ON_KEY, 0, &on_wkey, h);
-      else               tickit_window_bind_event(W[i], TICKIT_WINDOW_ON_MOUSE, 0, &on_wmouse, h);
+      if(nHD >= 256) { printf("ERR too-many-handlers\n"); fflush(stdout); _exit(0); }
+      HD[nHD++] = h;      /* handlers are numbered in the order they are bound */
+      if(h->kind == 'k') h->cid = tickit_window_bind_event(W[i], TICKIT_WINDOW_ON_KEY, 0, &on_wkey, h);
+      else               h->cid = tickit_window_bind_event(W[i], TICKIT_WINDOW_ON_MOUSE, 0, &on_wmouse, h);
       break; }
+    case 'U': { int i = p_int(&s), n = p_int(&s);   /* unbind handler number n (bound on window i) */
+      if(n < 0 || n >= nHD) { printf("ERR no-such-handler\n"); fflush(stdout); _exit(0); }
+      tickit_window_unbind_event_id(W[i], HD[n]->cid); break; }
+    case 'y': { int i = p_int(&s);                  /* a different size: GEOMCHANGE runs on the window itself */
+      TickitRect r = tickit_window_get_geometry(W[i]);
+      r.lines = r.lines == 4 ? 3 : 4;
+      tickit_window_set_geometry(W[i], r); break; }
     case '-': break;   /* no-op */
     default: printf("ERR op %s\n", op); fflush(stdout); _exit(0);
   }
